@@ -266,6 +266,20 @@ fn session(c: &Corpus, which: Impl, compressed: bool, style: u64, total_bytes: u
                 },
             }
         }
+        // a read on the idle socket now and then (a quiet peer): it must report "nothing yet" (time-out / would block) and
+        // leave the connection as it was - the traffic that follows is judged as before
+        if r.chance(1, 40) {
+            p.evaluations += 1;
+            if let Some(x) = conn.try_read() {
+                p.violation(
+                    format!("C08/{}/result-on-idle-socket", which.name()),
+                    format!("{label}: after {sent} bytes of traffic everything sent was delivered, yet a further read returned {}", crate::sess::short(&x)),
+                    json!({"impl": which.name(), "mode": mode_name(compressed), "cumulative_bytes": sent}),
+                );
+                return Ok((sent, datagrams));
+            }
+            p.count("idle_reads", 1);
+        }
         // keep-alive replies arrive at the peer as one datagram each
         let reply = if compressed { [1u8, 3, 0, 0] } else { [4u8, 3, 0, 0] };
         let mut buf = [0u8; 2048];
